@@ -410,7 +410,7 @@ def fix_cases(ctx):
         for h in HINTS:
             add(b, h, 'hints')
     # random field soup
-    nrand = 6000 if quick else 300000
+    nrand = 6000 if quick else 1000000
     toks = ['2012', '1995', '0001', '9999', '0000', '-', '-', '02', '07', '12', '13', '29', '30', '31', '00', '23', '24', '59', '60', ' ', ' ', 'T', ':', ':',
             '+', '-', '+0100', '-0000', '+2359', 'GMT', 'UTC', 'CET', 'EST', 'WITA', '\n', NBSP, 'YEAR', 'MO', 'DA', 'HO', 'MI', 'ZONE', 'x']
     for _ in range(nrand):
@@ -431,7 +431,7 @@ def regex_cases(ctx):
     out = []
     # tails after a valid date and time
     alpha = ['0', '5', ':', '+', '-', ' ', '\n', 'G', 'M', 'T', 'U', 'C', 'E', 'S', 'Z', NBSP]
-    kmax = 3 if quick else 4
+    kmax = 3 if quick else 5
     for k in range(0, kmax + 1):
         for seq in itertools.product(alpha, repeat=k):
             out.append((('re', '2012-11-01 14:42' + ''.join(seq)), 're-tails<=%d' % kmax))
